@@ -111,6 +111,34 @@ int main(int argc, char** argv) {
         if (back.isError() || (long) back.toEpochSeconds() != t) fail("ZonedDateTime parse(print) after another zone used its processor", zt, t, i);
       }
     }
+    // zoned date-times of manual zones over the whole date range (database zones cover 2000..2050 only): the printed text is
+    // the offset date-time's followed by the bracketed zone text, and it parses back -- through either overload -- to the same
+    // fields and offset, not merely to the same 32-bit second count
+    {
+      static const int offs[] = {0, 60, -60, 330, -210, 845, -705, 1, -1};
+      for (int y = 1873; y <= 2127; y++) for (int k = 0; k < 3; k++) {
+        int mo = (y * 7 + k * 5) % 12 + 1, d = (y * 11 + k * 13) % 28 + 1, h = (y + k * 7) % 24, mi = (y * 3 + k) % 60, sec = (y * 5 + k * 17) % 60;
+        if (y == 1873 && k == 0) { mo = 1; d = 1; h = 0; mi = 0; sec = 0; }
+        if (y == 2127 && k == 0) { mo = 12; d = 31; h = 23; mi = 59; sec = 59; }
+        int off = offs[(y + k) % 9];
+        TimeZone tz = TimeZone::forTimeOffset(TimeOffset::forMinutes((int16_t) off));
+        ZonedDateTime z = ZonedDateTime::forComponents((int16_t) y, (uint8_t) mo, (uint8_t) d, (uint8_t) h, (uint8_t) mi, (uint8_t) sec, tz);
+        n++;
+        if (z.isError()) { fail("manual-zone date-time is error", "", y, k); continue; }
+        std::string zt = pr(z);
+        std::string want = pr(OffsetDateTime::forComponents((int16_t) y, (uint8_t) mo, (uint8_t) d, (uint8_t) h, (uint8_t) mi, (uint8_t) sec, TimeOffset::forMinutes((int16_t) off))) + "[" + pr(tz) + "]";
+        if (zt != want) fail("ZonedDateTime (manual zone) printed form", zt, y, k);
+        for (int via = 0; via < 2; via++) {
+          // (the flash-string overloads document that a text longer than the 25 characters of an offset date-time is an
+          //  error: they are given the text without the bracketed part)
+          std::string head = zt.substr(0, 25);
+          ZonedDateTime b = via ? ZonedDateTime::forDateString((const __FlashStringHelper*) head.c_str()) : ZonedDateTime::forDateString(zt.c_str());
+          if (b.isError() || b.year() != y || b.month() != mo || b.day() != d || b.hour() != h || b.minute() != mi || b.second() != sec
+              || b.timeOffset().toMinutes() != off || pr(b).substr(0, 25) != zt.substr(0, 25))
+            fail(via ? "ZonedDateTime (manual zone) parse(print) changes fields [flash-string overload]" : "ZonedDateTime (manual zone) parse(print) changes fields", zt + " -> " + pr(b), y, k);
+        }
+      }
+    }
     // error values whose only defect is an hour above 24 (minute and second 0) print the placeholder like any other error
     for (int h : {25, 26, 48, 100, 255}) {
       LocalTime lt = LocalTime::forComponents((uint8_t) h, 0, 0);
@@ -159,6 +187,20 @@ int main(int argc, char** argv) {
         if (len < 25 && !ZonedDateTime::forDateString(s.c_str()).isError()) fail("short zoned date-time string accepted", s, (long) len, 0);
         if (len >= 11 && len - 11 < 8 && !LocalTime::forTimeString(s.substr(11).c_str()).isError()) fail("short time string accepted", s.substr(11), (long) len, 0);
         if (len >= 19 && len - 19 != 6 && !TimeOffset::forOffsetString(s.substr(19).c_str()).isError()) fail("offset string of wrong length accepted", s.substr(19), (long) len, 0);
+        // the flash-string overloads answer like the plain ones on every prefix
+        {
+          const __FlashStringHelper* fs = (const __FlashStringHelper*) s.c_str();
+          LocalDateTime l1 = LocalDateTime::forDateString(s.c_str()), l2 = LocalDateTime::forDateString(fs);
+          OffsetDateTime o1 = OffsetDateTime::forDateString(s.c_str()), o2 = OffsetDateTime::forDateString(fs);
+          ZonedDateTime z1 = ZonedDateTime::forDateString(s.c_str()), z2 = ZonedDateTime::forDateString(fs);
+          if (len <= 19 && (l1.isError() != l2.isError() || (!l1.isError() && !(l1 == l2)))) fail("LocalDateTime::forDateString: flash-string overload differs", s, (long) len, 0);
+          if (len > 19 && !l2.isError()) fail("flash-string overload accepts a text longer than a date-time (documented: error)", s, (long) len, 0);
+          if (len <= 25 && (o1.isError() != o2.isError() || (!o1.isError() && !(o1 == o2)))) fail("OffsetDateTime::forDateString: flash-string overload differs", s, (long) len, 0);
+          if (len <= 25 && (z1.isError() != z2.isError() || (!z1.isError() && pr(z1) != pr(z2)))) fail("ZonedDateTime::forDateString: flash-string overload differs", s, (long) len, 0);
+          if (len > 25 && (!o2.isError() || !z2.isError())) fail("flash-string overload accepts a text longer than an offset date-time (documented: error)", s, (long) len, 0);
+          if (len < 19 && !l2.isError()) fail("short date-time string accepted [flash-string overload]", s, (long) len, 0);
+          if (len < 25 && (!o2.isError() || !z2.isError())) fail("short offset/zoned date-time string accepted [flash-string overload]", s, (long) len, 0);
+        }
         if (len >= 19 && LocalDateTime::forDateString(s.c_str()).isError()) fail("complete date-time string rejected", s, (long) len, 0);
         if (len >= 25 && OffsetDateTime::forDateString(s.c_str()).isError()) fail("complete offset date-time string rejected", s, (long) len, 0);
       }
